@@ -1,6 +1,7 @@
 package c11
 
 import (
+	"fmt"
 	"io"
 	"io/fs"
 	"os"
@@ -18,7 +19,27 @@ const (
 	FENOENT  FaultKind = 'n' // Remove: the file has vanished and Remove answers ENOENT
 	FPartial FaultKind = 'p' // Write: N bytes reach the disk, then the operation fails
 	FCrash   FaultKind = 'c' // the process dies at this operation (a Write still puts N bytes on disk)
+	// error VALUES (the operation fails without effect, as FEIO; only the returned error differs). FENOENT on
+	// Create/Chmod/Write is a bare *PathError with ENOENT (errors.Is(err, fs.ErrNotExist) holds).
+	FWrapENOENT FaultKind = 'w' // fmt.Errorf("…: %w", ENOENT): only errors.Is sees it, os.IsNotExist does not
+	FEACCES     FaultKind = 'a' // bare EACCES
+	FWrapEIO    FaultKind = 'v' // fmt.Errorf("…: %w", EIO)
 )
+
+// errFor is the error value an operation returns for an injected fault; dflt is the errno of the plain kinds.
+func errFor(flt Fault, op, path string, dflt syscall.Errno) error {
+	switch flt.Kind {
+	case FENOENT:
+		return ioErr(op, path, syscall.ENOENT)
+	case FWrapENOENT:
+		return fmt.Errorf("faultfs %s: %w", op, ioErr(op, path, syscall.ENOENT))
+	case FEACCES:
+		return ioErr(op, path, syscall.EACCES)
+	case FWrapEIO:
+		return fmt.Errorf("faultfs %s: %w", op, ioErr(op, path, syscall.EIO))
+	}
+	return ioErr(op, path, dflt)
+}
 
 type Fault struct {
 	Kind FaultKind
@@ -95,14 +116,15 @@ func (f *FaultFS) Remove(name string) error {
 			}
 			return ioErr("remove", name, syscall.ENOENT)
 		}
-		return ioErr("remove", name, syscall.EIO)
+		// a WRAPPED ENOENT is not what the OS answers: the file stays, and only errors.Is would call it "not found"
+		return errFor(flt, "remove", name, syscall.EIO)
 	}
 	return f.real.Remove(f.mapPath(name))
 }
 
 func (f *FaultFS) Create(name string) (*os.File, error) {
-	if _, bad := f.next("create", name); bad {
-		return nil, ioErr("open", name, syscall.EACCES)
+	if flt, bad := f.next("create", name); bad {
+		return nil, errFor(flt, "open", name, syscall.EACCES)
 	}
 	fl, err := f.real.Create(f.mapPath(name))
 	if err == nil {
@@ -112,8 +134,8 @@ func (f *FaultFS) Create(name string) (*os.File, error) {
 }
 
 func (f *FaultFS) Chmod(fl *os.File, mode os.FileMode) error {
-	if _, bad := f.next("chmod", f.names[fl]); bad {
-		return ioErr("chmod", f.names[fl], syscall.EPERM)
+	if flt, bad := f.next("chmod", f.names[fl]); bad {
+		return errFor(flt, "chmod", f.names[fl], syscall.EPERM)
 	}
 	return f.real.Chmod(fl, mode)
 }
@@ -134,7 +156,7 @@ func (f *FaultFS) Write(fl *os.File, contents []byte) error {
 		if flt.Kind == FCrash {
 			panic(crashSignal{})
 		}
-		return ioErr("write", f.names[fl], syscall.ENOSPC)
+		return errFor(flt, "write", f.names[fl], syscall.ENOSPC)
 	}
 	return f.real.Write(fl, contents)
 }
